@@ -250,3 +250,69 @@ func typeDispatchIn(f *core.Func) *typeDispatch {
 	})
 	return best
 }
+
+// typeFactsNegAt: at this point the dynamic type of Operand is known NOT to be Type: the false edge of a comma-ok
+// assertion dominates, or the point lies in a later clause (or the default) of a type switch that has a clause for Type.
+func typeFactsNegAt(f *core.Func, at ast.Node) []typeFact {
+	info := f.Info()
+	var out []typeFact
+	path := core.PathTo(f.Root().Body, at)
+	for k := len(path) - 1; k >= 1; k-- {
+		cc, ok := path[k].(*ast.CaseClause)
+		if !ok {
+			continue
+		}
+		var ts *ast.TypeSwitchStmt
+		for j := k - 1; j >= 0; j-- {
+			if t, ok := path[j].(*ast.TypeSwitchStmt); ok {
+				ts = t
+				break
+			}
+			if _, isBlock := path[j].(*ast.BlockStmt); !isBlock {
+				break
+			}
+		}
+		if ts == nil {
+			continue
+		}
+		var ta *ast.TypeAssertExpr
+		switch a := ts.Assign.(type) {
+		case *ast.AssignStmt:
+			ta, _ = a.Rhs[0].(*ast.TypeAssertExpr)
+		case *ast.ExprStmt:
+			ta, _ = a.X.(*ast.TypeAssertExpr)
+		}
+		if ta == nil {
+			continue
+		}
+		for _, c := range ts.Body.List {
+			other := c.(*ast.CaseClause)
+			if other == cc {
+				if cc.List != nil {
+					break // clauses after this one say nothing
+				}
+				continue
+			}
+			for _, e := range other.List {
+				out = append(out, typeFact{Operand: ta.X, Type: info.TypeOf(e), Scope: other})
+			}
+		}
+	}
+	g := graph(f)
+	for _, fct := range g.FactsAt(g.PointOf(at)) {
+		v := core.VarOf(info, fct.Cond)
+		if v == nil || fct.Val || fct.Tag != nil {
+			continue
+		}
+		d, ok := core.SingleDef(info, f.Root().Body, v)
+		if !ok || d.Index != 1 {
+			continue
+		}
+		ta, ok := ast.Unparen(d.Rhs).(*ast.TypeAssertExpr)
+		if !ok || ta.Type == nil {
+			continue
+		}
+		out = append(out, typeFact{Operand: ta.X, Type: info.TypeOf(ta.Type), Scope: d.Stmt})
+	}
+	return out
+}
